@@ -43,26 +43,40 @@ class HarnessError(Exception):
 
 
 class CaseTimeout(BaseException):
-    pass
+    stacks = ()
+
+
+_TL = {"first": None, "half": 0}
 
 
 def _alarm(signum, frame):
-    raise CaseTimeout()
+    # two samples of the stack, half the limit apart: the frames common to both contain the loop that does not terminate
+    st = [(f.filename, f.name) for f in traceback.extract_stack(frame)]
+    if _TL["first"] is None:
+        _TL["first"] = st
+        signal.alarm(max(1, _TL["half"]))
+        return
+    e = CaseTimeout()
+    e.stacks = (_TL["first"], st)
+    raise e
 
 
 class time_limit:
-    """CPU/wall guard used only to classify hangs (C19) or to mark a case inconclusive; never an oracle."""
+    """wall guard used only to classify hangs (C19) or to mark a case inconclusive; never an oracle."""
 
     def __init__(self, seconds):
         self.seconds = seconds
 
     def __enter__(self):
+        _TL["first"] = None
+        _TL["half"] = self.seconds - self.seconds // 2
         self.old = signal.signal(signal.SIGALRM, _alarm)
-        signal.alarm(self.seconds)
+        signal.alarm(max(1, self.seconds // 2))
 
     def __exit__(self, *a):
         signal.alarm(0)
         signal.signal(signal.SIGALRM, self.old)
+        _TL["first"] = None
         return False
 
 
